@@ -95,6 +95,11 @@ func (v varReader) Read(r io.Reader) ([]byte, error) {
 			return nil, fmt.Errorf("read %d/%d: %s",
 				i+1, size, err)
 		}
+		if len(data) == 0 {
+			// zero-size elements (void, empty tuple): nothing to
+			// read nor to copy, whatever the count says.
+			break
+		}
 		err = basic.WriteN(&buf, data, len(data))
 		if err != nil {
 			return nil, fmt.Errorf("read %d/%d: %s",
